@@ -54,7 +54,7 @@ FLOORS["C19"] = {"evaluations": 500_000, "distinct_nontrivial": 500}
 # ----------------------------------------------------------------------------------------------
 prop("C20", level="exploration",
      title="Endian-tagged integers keep their declared byte order for every value",
-     technique="reference-model monitor: wrapper conversions, in-memory bytes, equality and guest-memory wire format compared with std to_le_bytes/to_be_bytes; 16-bit types exhaustive, 32-bit exhaustive in the thorough tier, 64-bit structured + random",
+     technique="reference-model monitor: wrapper conversions, in-memory bytes, equality and inequality operators in all three pairings (wrapper/native, native/wrapper, wrapper/wrapper), clone, Into, Default and guest-memory wire format compared with std to_le_bytes/to_be_bytes; 16-bit types exhaustive, 32-bit exhaustive in the thorough tier, 64-bit structured + random",
      rule="cases = (wrapper, value, comparison partner) ; 16-bit wrappers: all 2^16 values x 5 partners (exhaustive); 32-bit: 2^24 structured + random (quick) / all 2^32 (thorough); 64-bit/size: every value with <=2 distinct byte values for 8 byte pairs, walking ones/zeros, byte position markers, palindromes + seeded random; memory-level write_obj/read_obj checks at unaligned offsets in a VolatileSlice and a GuestMemoryMmap; distinct key = (width, value pattern class / high byte / byte value at position, symmetric-under-byteswap?) - a key is non-trivial because each names a byte pattern whose byte order is observable",
      exhaustive_note="Le16/Be16: all 65536 values in every tier; Le32/Be32: all 2^32 values in the thorough tier",
      assumptions=["std's to_le_bytes/to_be_bytes define the wire format", "host is little-endian x86-64 (the big-endian host half of 'regardless of the host' cannot be executed here)"],
@@ -77,8 +77,8 @@ FLOORS["C20"] = {"evaluations": 10_000_000, "distinct_nontrivial": 1000}
 # ----------------------------------------------------------------------------------------------
 prop("C02", level="exploration",
      title="Guest address queries answer exactly according to the set of mapped regions",
-     technique="reference-model monitor: every address query of GuestMemoryMmap and of a second trait implementation (MockMemory, default methods only) compared with an interval-set model; small universe enumerated completely, large layouts boundary-sampled; ",
-     rule="cases = (backend, layout, query, address, length). Exhaustive part: all layouts of 1..3 regions with sizes 1..4 inside [0,14) (8430 layouts) x 3 translations (at 0, ending at 2^64-2, ending at 2^64-1 [mock only]) x every address of the universe +-1 plus the opposite extreme x every length 0..16 plus usize::MAX, usize::MAX-1, 2^63. Random part: <=8 regions, sizes 1 B..1 MiB, holes 0 B..2^61, addresses at region edges +-2 and extremes, lengths from the boundary generator. distinct key = (backend, query, answer class, position of the address relative to the nearest region edge, length-vs-run class, layout shape); non-trivial = the address is at/next to a region edge or in a hole (keys for addresses strictly inside/above/below everything are counted separately as trivial)",
+     technique="reference-model monitor: every address query of GuestMemoryMmap and of a second trait implementation (MockMemory, default methods only) compared with an interval-set model; small universe enumerated completely, large layouts boundary-sampled; for the mmap collection the same queries are repeated on collections DERIVED from it (each region removed with remove_region, then re-inserted with insert_region), which must answer according to the derived layout",
+     rule="cases = (backend, layout, query, address, length). Exhaustive part: all layouts of 1..3 regions with sizes 1..4 inside [0,14) (8430 layouts) x 3 translations (at 0, ending at 2^64-2, ending at 2^64-1 [mock only]) x every address of the universe +-1 plus the opposite extreme x every length 0..16 plus usize::MAX, usize::MAX-1, 2^63. Random part: <=8 regions, sizes 1 B..1 MiB, holes 0 B..2^61, addresses at region edges +-2 and extremes, lengths from the boundary generator. Backends: mmap, mock, mmap-removed (one region removed: top / bottom / middle), mmap-reinserted. distinct key = (backend, query, answer class, position of the address relative to the nearest region edge, length-vs-run class, layout shape); non-trivial = the address is at/next to a region edge or in a hole (keys for addresses strictly inside/above/below everything are counted separately as trivial)",
      exhaustive_note="all 1..3-region layouts with region sizes 1..4 in a 14-byte universe, at three translations, all addresses and lengths of that universe",
      assumptions=["the interval-set model (models/layout.rs, 60 lines) is the specification", "check_range(b,0) and get_slice(a,0) at an unmapped address are recorded but not judged (vacuous for an empty range)", "mmap-backed regions in this monitor are build_raw views of a PROT_NONE reservation: only pointers are compared, bytes are never touched"],
      level_text="Complete enumeration of a small universe plus boundary-biased sampling of large layouts, with a model oracle on every answer; held-on-observed for the layouts/addresses actually queried.",
@@ -355,7 +355,7 @@ FLOORS["C14"] = {"executions_enumerated": 70_000, "fd_replays": 500, "distinct_n
 prop("C18", level="exploration",
      title="Zero-length accesses are successful no-ops at every layer",
      technique="matrix monitor: (entry point x layer x address class x container x zero-sized type) enumerated completely; each cell runs under catch_unwind with a byte frame and a dirty-bitmap frame around it; GuestMemoryMmap with dirty tracking and MockMemory (default trait methods, region at 2^64-1) at guest level, GuestRegionMmap / MockRegion at region level, arena slices (empty, null-based empty, 1 byte, odd alignment, with byte-granular bitmap) and region slices at slice level; debug, release and Xen builds (Xen-UNIX, and through the emulated devices: on-demand grant, advance-mapped grant and foreign regions)",
-     rule="cells = entry points {write/read/write_slice/read_slice with empty buffers; write_obj/read_obj, get_ref.load/store, get_array_ref{copy_to,copy_from,load,store,ref_at} (n=0,1,5), copy_to/copy_from for [u8;0],[u16;0],[u64;0],[u128;0]; copy_to/copy_from with empty buffers of u8/u32/u64; empty slice-to-slice copies; zero-count read_volatile_from/read_exact_volatile_from/write_volatile_to/write_all_volatile_to with slice, cursor, Vec and file streams} x layers {slice, region, guest} x address classes {first/inside/last byte of each region, one before, one past, hole, 0, 2^63, 2^64-1; offsets 0, inside, last, len, len+1, 2^63, usize::MAX} x 7 fixed layouts (single, at 0, adjacent, hole, near top, top [mock], 1-byte regions) + random layouts. Every cell is distinct and non-trivial; judged = the statement pins it (empty-buffer / zero-sized-object forms at any address; zero-count stream forms and zero-sized element accessors at addresses valid for a non-empty access), others are recorded as notes",
+     rule="cells = entry points {write/read/write_slice/read_slice with empty buffers; write_obj/read_obj, get_ref.load/store, get_array_ref{copy_to,copy_from,load,store,ref_at} (n=0,1,5), copy_to/copy_from for [u8;0],[u16;0],[u64;0],[u128;0]; copy_to/copy_from with empty buffers of u8/u32/u64; empty slice-to-slice copies; zero-count read_volatile_from/read_exact_volatile_from/write_volatile_to/write_all_volatile_to with slice, cursor, Vec and file streams, including sources with nothing left and sinks with no room (empty &[u8] / &mut [u8], cursors positioned at the start, at the end, past the end and at u64::MAX - the cursor must not move)} x layers {slice, region, guest} x address classes {first/inside/last byte of each region, one before, one past, hole, 0, 2^63, 2^64-1; offsets 0, inside, last, len, len+1, 2^63, usize::MAX} x 7 fixed layouts (single, at 0, adjacent, hole, near top, top [mock], 1-byte regions) + random layouts. Every cell is distinct and non-trivial; judged = the statement pins it (empty-buffer / zero-sized-object forms at any address; zero-count stream forms and zero-sized element accessors at addresses valid for a non-empty access), others are recorded as notes",
      exhaustive_note="the complete matrix over the 7 fixed layouts and 10 containers",
      assumptions=["the element count returned by copy_to for zero-sized elements is not judged", "zero-count stream transfers at unmapped addresses are recorded, not judged"],
      level_text="Complete enumeration of the zero-length matrix with result, panic and frame oracles; held-on-observed.",
@@ -381,7 +381,7 @@ FLOORS["C18"] = {"evaluations": 50_000, "distinct_nontrivial": 5000}
 prop("C15", level="exploration",
      title="Region construction accepts exactly the safe requests and builds what was asked",
      technique="predicate-model monitor over construction grids with an in-process syscall interposer: Ok/Err and attributes compared with the statement's predicate; mmap/munmap event balance and /proc/self/maps prove that a failed construction leaves nothing mapped and that a successful one issued exactly the requested mapping; pread/pwrite coherence for MAP_SHARED file regions; Xen build: all mapping-type flag combinations against an emulated grant/privcmd device",
-     rule="cases = construction requests. std build: check_file_offset grid (6 file lengths x 9 offsets x 6 sizes), MmapRegion::build / MmapRegionBuilder grid (5 anonymous flag words incl. MAP_FIXED x 5 sizes x 3 prots; 4 file flag words x 6 file lengths x 6 offsets incl. unaligned and near u64::MAX x 7 sizes around end-of-file and usize::MAX), build_raw with 11 pointer offsets x 4 sizes over an external mapping (never unmapped by the library), GuestRegionMmap::new with base+size in 2^64-2..2^64+2, from_range with files, random requests. Xen build: 32 low flag-bit combinations + 8 high-bit words x {file present, absent} x offsets {0,1,4096} x 2 sizes through MmapRegion::from_range with the ioctl emulator, MAP_FIXED, new_unix around end-of-file. distinct key = (constructor, flag word, prot, end-vs-EOF relation, offset class, predicate clause / outcome); OS refusals (EINVAL/ENOMEM/EBADF for requests the predicate calls safe) are counted as trivial, not judged",
+     rule="cases = construction requests. std build: check_file_offset grid (6 file lengths x 9 offsets x 6 sizes), MmapRegion::build / MmapRegionBuilder grid (5 anonymous flag words incl. MAP_FIXED x 5 sizes x 3 prots; 4 file flag words x 6 file lengths x 6 offsets incl. unaligned and near u64::MAX x 7 sizes around end-of-file and usize::MAX), build_raw with 11 pointer offsets x 4 sizes over an external mapping (never unmapped by the library), GuestRegionMmap::new with base+size in 2^64-2..2^64+2, from_range with files, random requests. Xen build: 32 low flag-bit combinations + 8 high-bit words x {file present, absent} x offsets {0,1,4096} x 2 sizes x 4 mmap flag/protection requests {default, MAP_SHARED + PROT_READ, MAP_SHARED|MAP_FIXED, MAP_PRIVATE|MAP_FIXED|MAP_NORESERVE} through MmapRegion::from_range with the ioctl emulator (a region that is accepted must report the requested flags and protection and never MAP_FIXED), new_unix around end-of-file. distinct key = (constructor, flag word, prot, end-vs-EOF relation, offset class, predicate clause / outcome); OS refusals (EINVAL/ENOMEM/EBADF for requests the predicate calls safe) are counted as trivial, not judged",
      exhaustive_note="the listed grids are enumerated completely; Xen: every combination of the five low mapping-type bits",
      assumptions=["requests the predicate calls safe but the kernel refuses (size 0, unaligned file offset, exotic prot/flags) are 'OS refused': counted, not judged", "base+size == 2^64 is recorded, not judged", "Xen devices are emulated through the interposed ioctl(2): index/offset contract only"],
      level_text="Predicate oracle + kernel-level event balance over completely enumerated request grids; held-on-observed.",
@@ -430,8 +430,8 @@ FLOORS["C17"] = {"ondemand_windows_observed": 2000, "ondemand_and_xen_ops": 5000
 # ----------------------------------------------------------------------------------------------
 prop("C12", level="exploration",
      title="A mapping lives exactly as long as something can still reach it",
-     technique="kernel-level event-log monitor: every mmap/munmap the library issues is recorded by a link-time syscall interposer while the harness keeps the owner set of every mapping (maps, derived maps, removed-region handles, clones, GuestMemoryAtomic snapshots and owned handles); after every step the observed munmaps must be exactly the mappings whose last owner just went away, with the exact (addr, len); externally provided (build_raw) mappings are never unmapped; /proc/self/maps cross-check for named file mappings; reads through every live owner; Miri runs the same sequences on the allocation path (leak / double free / use-after-free); auxiliary compile-fail corpus for the static clause",
-     rule="cases = owner histories. Enumerated completely: every drop order (4! = 24 each) of three owner shapes - insert/remove chain {M1{A,B}, M2=M1+C, M3=M2-A, handle(A)}, replaceable map {atomic, snapshot taken before a replacement, owned snapshot taken after it, clone of the first snapshot}, clones and shared Arcs {M1{A}, clone, handle(A), M3=from_arc_regions[A,B]} over anonymous, named-file and externally provided mappings. Random sequences of 6..30 steps: create 1..3 regions into a map, insert, remove (+keep handle), clone, GuestMemoryAtomic from clone, snapshot, into_inner, replace, drop of a random owner. distinct key = (shape, drop order) and (step kind, owners alive); all non-trivial",
+     technique="kernel-level event-log monitor: every mmap/munmap the library issues is recorded by a link-time syscall interposer while the harness keeps the owner set of every mapping (maps, derived maps, removed-region handles, clones, GuestMemoryAtomic snapshots and owned handles); after every step the observed munmaps must be exactly the mappings whose last owner just went away, with the exact (addr, len); a mapping made during a step that no resulting object owns (refused or abandoned construction) must be released again within the step with its exact extent; externally provided (build_raw) mappings are never unmapped; /proc/self/maps cross-check for named file mappings; reads through every live owner; Miri runs the same sequences on the allocation path (leak / double free / use-after-free); auxiliary compile-fail corpus for the static clause",
+     rule="cases = owner histories. Enumerated completely: every drop order (4! = 24 each) of three owner shapes - insert/remove chain {M1{A,B}, M2=M1+C, M3=M2-A, handle(A)}, replaceable map {atomic, snapshot taken before a replacement, owned snapshot taken after it, clone of the first snapshot}, clones and shared Arcs {M1{A}, clone, handle(A), M3=from_arc_regions[A,B]} over anonymous, named-file and externally provided mappings. Random sequences of 6..30 steps: create 1..3 regions into a map, insert, remove (+keep handle), clone, GuestMemoryAtomic from clone, snapshot, into_inner, replace, drop of a random owner, and refused constructions of 9 kinds (file range past end-of-file, file offset overflow, unaligned file offset, MAP_FIXED, guest base + size beyond 2^64 [consumes an already mapped region], from_ranges with an overlapping range, from_regions with overlapping regions, from_ranges whose k-th mmap fails with an injected ENOMEM, insert_region of an overlapping last-reference Arc); each kind is also run 12 times on an empty world. distinct key = (shape, drop order), (step kind, owners alive) and (refused-construction kind, balanced?); all non-trivial",
      exhaustive_note="all 24 drop orders of each of the three owner shapes",
      assumptions=["the interposer sees every mmap/munmap issued through the libc crate (all of vm-memory's)", "the static clause ('must not compile') is not an execution: the compile-fail corpus (10 escaping programs with compiling twins) samples it and is reported separately under coverage.static_clause_corpus"],
      level_text="Event-log oracle over exhaustively enumerated drop orders and random owner histories, with Miri as leak/UAF oracle on the allocation path; held-on-observed. The static clause is only sampled by a compile-fail corpus.",
@@ -537,7 +537,7 @@ FLOORS["C08"] = {"schedules_explored": 46_000, "programs_exhausted": 56, "schedu
 # ----------------------------------------------------------------------------------------------
 prop("C11", level="exploration",
      title="A memory-map snapshot stays whole and usable while the map is being replaced",
-     technique="event-log monitor with generation tags and a logical clock: every published map is {base region, tag region whose address and first/last bytes encode its generation}; readers stamp a clock before memory(), updaters after replace() returns; offline checks: whole (list and tag bytes agree on one generation), stable while held (guard, clone, into_inner, across replacements), real-time order, per-reader monotonicity, in-lock counter <= 1, final generation == completed replacements, Weak handles of replaced maps die exactly when unreferenced; sequential model check over several cloned handles, oversubscribed native stress, TSan, Miri many-seeds (preempts inside lock/replace/arc-swap)",
+     technique="event-log monitor with generation tags and a logical clock: every published map is {base region, tag region whose first/last bytes encode its generation}; in half of the histories the tag region's guest address encodes the generation too (each replacement changes the layout), in the other half every generation keeps the same layout and only the backing memory changes; readers stamp a clock before memory(), updaters after replace() returns; offline checks: whole (list and tag bytes agree on one generation), stable while held (guard, clone, into_inner, across replacements), real-time order, per-reader monotonicity, in-lock counter <= 1, final generation == completed replacements, Weak handles of replaced maps die exactly when unreferenced; sequential model check over several cloned handles, oversubscribed native stress, TSan, Miri many-seeds (preempts inside lock/replace/arc-swap)",
      rule="cases = histories. Sequential: 10..60 steps over 3 cloned handles (snapshot, owned snapshot, clone of snapshot, lock+replace deriving the next generation by remove+insert, lock+unlock, drop) with a model of the current generation and of which generations must be alive. Stress: rounds of 24 readers x 200 snapshots + 8 updaters x 40 replacements (Miri: 2+2 threads, 3/2 operations) with yields at the harness boundary. distinct key = (mode, reader action, replacements spanned while held, generation lag); non-trivial = the snapshot was held across >= 1 replacement or re-read",
      assumptions=["no hook inside src/atomic.rs / arc-swap: native runs sample schedules, the narrow windows inside replace()/lock() are reached by Miri's scheduler for small programs only", "tag bytes are written with atomic store(Release) before publishing and read with load(Acquire), so guest bytes are not a race for TSan"],
      level_text="Offline trace checks over sampled schedules (native oversubscription, TSan, Miri) plus a deterministic sequential model check; held-on-observed.",
